@@ -330,7 +330,16 @@ def term_bounds(c, row, t, depth=0):
         return const_val(t), const_val(t)
     s = vs(row, t) if row is not None else None
     if s is not None and not s.is_all() and s.lo() is not None and s.hi() is not None and s.lo() != float("-inf") and s.hi() != float("inf"):
+        # what the path knows about the term, tightened by what its structure implies (the facts may only carry the type's range)
+        st_ = _struct_bounds(c, row, t, depth)
+        if st_ is not None and st_[0] is not None:
+            return max(s.lo(), st_[0]), min(s.hi(), st_[1])
         return s.lo(), s.hi()
+    return _struct_bounds(c, row, t, depth)
+
+
+def _struct_bounds(c, row, t, depth=0):
+    from terms import ty_range
     if t[0] == "cast":
         tr = ty_range(t[2])
         b = term_bounds(c, row, t[1], depth + 1)
